@@ -95,7 +95,7 @@ pub fn has_try_api(op: Op) -> bool {
 fn pieces(p: &Pool, op: Op) -> Option<Vec<String>> {
     use Op::*;
     Some(match op {
-        ExtendChars(_) | ExtendFiltered(_) => vec!["a".into(), "€".into()],
+        ExtendChars(_) | ExtendFiltered(_) | ExtendLying(..) => vec!["a".into(), "€".into()],
         ExtendStrs(_) => vec!["b".into(), "cd".into()],
         ExtendLean(_, s) => vec![p.m[s as usize].clone().unwrap_or_default()],
         ExtendHuge(_, n) => ['x', 'é'].iter().take(n as usize).map(|c| c.to_string()).collect(),
@@ -741,8 +741,10 @@ pub enum SizeEntry {
     TryShrinkTo,
     ShrinkTo,
     ExtendHint(u8),
+    /// size_hint = (0, Some(n)): the upper bound is the size argument
+    ExtendUpper(u8),
 }
-const SIZE_ENTRIES: [SizeEntry; 7] = [SizeEntry::TryReserve, SizeEntry::Reserve, SizeEntry::TryShrinkTo, SizeEntry::ShrinkTo, SizeEntry::ExtendHint(0), SizeEntry::ExtendHint(1), SizeEntry::ExtendHint(2)];
+const SIZE_ENTRIES: [SizeEntry; 9] = [SizeEntry::TryReserve, SizeEntry::Reserve, SizeEntry::TryShrinkTo, SizeEntry::ShrinkTo, SizeEntry::ExtendHint(0), SizeEntry::ExtendHint(1), SizeEntry::ExtendHint(2), SizeEntry::ExtendUpper(1), SizeEntry::ExtendUpper(2)];
 
 pub const C06_GIANT: usize = 1 << 20;
 
@@ -755,7 +757,7 @@ fn size_case(cx: &ProbeCtx, hist: &[OpId], i: usize, entry: SizeEntry, n: usize,
     let desc = format!("slot {i} ({}, len {}, cap {}): {entry:?}({n})", kind_str(Some(&a)), a.len, a.cap);
     cx.trace(hist, &desc);
     let items: Vec<char> = match entry {
-        SizeEntry::ExtendHint(k) => ['x', 'é'].into_iter().take(k as usize).collect(),
+        SizeEntry::ExtendHint(k) | SizeEntry::ExtendUpper(k) => ['x', 'é'].into_iter().take(k as usize).collect(),
         _ => vec![],
     };
     let c0 = shim::with(|s| s.mark());
@@ -767,6 +769,10 @@ fn size_case(cx: &ProbeCtx, hist: &[OpId], i: usize, entry: SizeEntry, n: usize,
         SizeEntry::ShrinkTo => quiet(|| h.shrink_to(n)).map(Ok),
         SizeEntry::ExtendHint(_) => {
             let it = HugeHint { it: items.clone().into_iter(), hint: n };
+            quiet(move || h.extend(it)).map(Ok)
+        }
+        SizeEntry::ExtendUpper(_) => {
+            let it = Hinted { it: items.clone().into_iter(), lower: 0, upper: Some(n) };
             quiet(move || h.extend(it)).map(Ok)
         }
     };
@@ -800,7 +806,7 @@ fn size_case(cx: &ProbeCtx, hist: &[OpId], i: usize, entry: SizeEntry, n: usize,
                     let mut vv = |o: &'static str, dd: String| out.push(Viol { prop: "C06", oracle: o, detail: dd });
                     oracle::shrink_post(&a, &b, n, &desc, &mut vv);
                 }
-                SizeEntry::ExtendHint(_) => {
+                SizeEntry::ExtendHint(_) | SizeEntry::ExtendUpper(_) => {
                     let mut want = a.text.clone();
                     want.extend(items.iter().collect::<String>().as_bytes());
                     if b.text != want {
@@ -824,7 +830,7 @@ fn size_case(cx: &ProbeCtx, hist: &[OpId], i: usize, entry: SizeEntry, n: usize,
             if is_try || m != ALLOC_MSG {
                 v("wrong-report", format!("{desc}: panicked with {m:?}"));
             }
-            if let SizeEntry::ExtendHint(_) = entry {
+            if let SizeEntry::ExtendHint(_) | SizeEntry::ExtendUpper(_) = entry {
                 // may stop between items
                 let mut acc = a.text.clone();
                 let mut ok = b.text == acc;
@@ -872,7 +878,7 @@ pub fn size_probe(cx: &ProbeCtx, hist: &[OpId]) {
     for (i, len, cap) in slots {
         for n in size_values(len, cap) {
             for entry in SIZE_ENTRIES {
-                if matches!(entry, SizeEntry::ExtendHint(_)) && len >= LMAX {
+                if matches!(entry, SizeEntry::ExtendHint(_) | SizeEntry::ExtendUpper(_)) && len >= LMAX {
                     continue;
                 }
                 size_case(cx, hist, i, entry, n, n % 7 == 0);
